@@ -123,8 +123,9 @@ def _check_exit_propagation(ctx) -> None:
         from ..types import _always_exits
         bad = None if _always_exits(f.node.body) else f.node
         rets = [n for n in ast.walk(f.node) if isinstance(n, ast.Return)]
-        delegating = [r for r in rets if isinstance(r.value, ast.Call)]
+        call_locals = {a.targets[0].id for a in ast.walk(f.node) if isinstance(a, ast.Assign) and len(a.targets) == 1 and isinstance(a.targets[0], ast.Name) and isinstance(a.value, ast.Call)}
+        delegating = [r for r in rets if isinstance(r.value, ast.Call) or (isinstance(r.value, ast.Name) and r.value.id in call_locals)]
         if bad is None and delegating and all(r.value is not None for r in rets):
-            ctx.ok("EXIT-PROP", f, delegating[-1], what=f"{f.name} returns the status of {short(delegating[-1].value.func)}")
+            ctx.ok("EXIT-PROP", f, delegating[-1], what=f"{f.name} returns the status of {short(delegating[-1].value.func) if isinstance(delegating[-1].value, ast.Call) else short(delegating[-1].value)}")
         else:
             ctx.fail("EXIT-PROP", f, f.node, f"{f.name} does not return the exit status of the call it delegates to on every path", construct=f"{f.module.name}.{f.name} returns status")
